@@ -254,6 +254,9 @@ def scenarios(tier, rng):
     for f in FIELDS:
         for n in lens:
             out.append(field_scenario("%s_%d" % (f, n), f, n))
+    if tier == "quick":
+        # one field of the largest size of the table in the quick tier as well (a file of more than 1 MiB)
+        out.append(field_scenario("value_%d" % (1 << 20), "value", 1 << 20))
     for n in lens:
         out.append(join_scenario("joined_%d" % n, n))
     for n in lens:
